@@ -63,7 +63,8 @@ def build(case):
 
 def expected_output_snapshot(case, data, ref):
     if ref.filtered_columns:
-        data = data.drop(columns=list(dict.fromkeys(ref.filtered_columns)))
+        il = case["table"].get("int_labels")
+        data = data.drop(columns=[sp._lab(x, il) for x in dict.fromkeys(ref.filtered_columns)])
     return fp.snapshot(data)
 
 
@@ -78,6 +79,8 @@ def evaluate(case):
     schema, data = build(case)
     kinds = constraint_kinds(spec)
     ev.labels.append("kind=" + spec.get("kind", "dataframe"))
+    if spec.get("int_labels"):
+        ev.labels.append("int-labels")
     ev.labels.append("ref=" + ("accept" if ref.accept else "reject"))
     for r in ref.reasons:
         ev.labels.append("reason=" + r)
@@ -316,6 +319,8 @@ FAMILIES = [
            required_labels=["ref=accept", "ref=reject", "has:check"]),
     Family("nested_unique", evaluate, strategy=strat_nested_unique, n_quick=500, n_thorough=3000, shards_quick=2,
            shards_thorough=8, required_labels=["reason=DUPLICATES", "ref=accept", "nested:absent-set-first"]),
+    Family("int_labels", evaluate, strategy=lambda: gen.repaired_case().flatmap(gen.int_labelled), n_quick=500, n_thorough=3000,
+           shards_quick=2, shards_thorough=8, required_labels=["ref=accept", "ref=reject", "has:regex", "int-labels"]),
     Family("revalidate", eval_revalidate, strategy=strat_revalidate, n_quick=800, n_thorough=3000, shards_quick=3,
            shards_thorough=12, required_labels=["ref2=reject", "ref2=accept", "first=inplace", "kind=series"]),
 ]
